@@ -208,4 +208,3 @@ func Harness_C33_Debian() {
 	}
 	zz.Reach("end")
 }
-
